@@ -124,6 +124,36 @@ def run_case(run, case_seed, tier):
 DRV = [None]
 
 
+def releases(run, seed):
+    """Two releases of one torrent (same name, same relative path, the newer file longer),
+    rebuilt one after the other into the same destination: the search copies of BOTH must
+    stay byte-identical (a destination that shares storage with a source must never be
+    written through)."""
+    import random as _r
+    rng = _r.Random(seed)
+    for version in (1, 2, 3):
+        with sandbox("c14r") as box:
+            old = {"name": "rel", "files": [("data.bin", "r1.20000"), ("note", "r2.10")], "pl": 16384,
+                   "version": version, "single": False, "source": "own"}
+            new = {"name": "rel", "files": [("data.bin", "r3.41000"), ("note", "r2.10")], "pl": 16384,
+                   "version": version, "single": False, "source": "own"}
+            metas = [rb.write_metafile(box, old, 0), rb.write_metafile(box, new, 1)]
+            s_old, s_new = os.path.join(box, "search-old"), os.path.join(box, "search-new")
+            from harness.common import write_tree
+            write_tree(s_old, [(p, b.bytes()) for p, b in rb.torrent_files(old)])
+            write_tree(s_new, [(p, b.bytes()) for p, b in rb.torrent_files(new)])
+            dest = os.path.join(box, "dest")
+            os.makedirs(dest)
+            before = {d: snapshot(d) for d in (s_old, s_new, os.path.join(box, "metas"))}
+            case = {"scenario": "releases", "version": version}
+            for mpath, sdirs in ((metas[0][0], [s_old]), (metas[1][0], [s_new, s_old])):
+                rb.rebuild_with_model(box, [mpath], sdirs, dest, DRV[0], case)
+            for d, snap in before.items():
+                if snapshot(d) != snap:
+                    run.fail("impl-vs-spec", case, {"why": f"{os.path.basename(d)} changed"})
+            run.case(["releases", version], True, sample=case, classes=["releases"])
+
+
 def run(tier, seed, replay=None):
     impl.use_repo()
     run = Run("C14", tier, seed, RULE)
@@ -133,5 +163,7 @@ def run(tier, seed, replay=None):
         [run.rng.randrange(10 ** 9) for _ in range(70 if tier == "quick" else 700)]
     for s in seeds:
         run_case(run, s, tier)
+    if not replay or replay["case"].get("scenario") == "releases":
+        releases(run, seed)
     rb.settle_match(run, DRV[0].run())
     return run.finish()
